@@ -15,6 +15,87 @@ Lemma gen_name_keys : name_keys = [k_Is; k_RN; k_Fc; k_La; k_Ti; k_CX; k_CY].
 Proof. reflexivity. Qed.
 Lemma gen_table_safe : forallb fq_keep dec_table = true.
 Proof. vm_compute. reflexivity. Qed.
+(* the tagger-side tables as regenerated: which tag each derived value is written to, the padding character, the sample
+   name chain (guard, f-string parts, rename) and the read-group recipe *)
+Definition sm_recipes_expected : list (str * (list (Z * str) * str)) :=
+  [ (k_bi, ([(0, k_LY); (1, [95]); (0, k_bi)], []));
+    (k_BI, ([(0, k_LY); (1, [95]); (0, k_BI)], k_bi));
+    (k_LY, ([(0, k_LY); (1, 95 :: s_BULK)], [])) ].
+Lemma gen_tagger_tables :
+  ah_tag = k_ah /\ ah_raw = k_aa /\ ah_corr = k_aA /\ mi_tag = k_MI /\ qm_tag = k_QM /\ bk_tag = k_BK /\ sm_tag = k_SM /\
+  rg_tag = k_RG /\ mol_pad = 111 /\ mol_qt_tag = k_QT /\ sm_recipes = sm_recipes_expected /\
+  rg_recipe = [(0, (k_Fc, s_NONE)); (1, ([46], [])); (0, (k_La, s_NONE)); (1, ([46], [])); (0, (k_SM, s_NONE))].
+Proof. repeat split; reflexivity. Qed.
+
+(* derive with the regenerated tag names written out (definitional) *)
+Lemma derive_unfold : forall d, derive d =
+  let a := mol_loop 111 k_QT mol_tags d mol0 in
+  if m_terr a then Raise EType else
+  bind (if m_nonmux a then Ok (dset k_BK (TI 1) d)
+        else
+          bind (match get k_aA d, get k_aa d with
+                | Some (TS ca), Some (TS ia) => Ok (dset k_ah (TI (hamming ia ca)) d)
+                | Some _, Some _ => Raise EType
+                | _, _ => Ok d
+                end) (fun r =>
+          let r := dset k_MI (TS (fqSafe (m_id a))) r in
+          Ok (if m_qt_missing a then r else dset k_QM (TS (fqSafe (m_q a))) r)))
+  (fun r1 => bind (sm_apply fqsafe_ranges k_SM sm_recipes_expected r1) (fun r2 => Ok (r2, m_qt_missing a))).
+Proof. reflexivity. Qed.
+
+Lemma tag_read_unfold : forall d, tag_read d =
+  bind (derive d) (fun x =>
+    let '(r2, qt_missing) := x in
+    bind (mapM write_value r2) (fun out =>
+      if negb qt_missing && has k_QM out then
+        match get k_MI out with
+        | None => Raise EKey
+        | Some mi => match get k_QM out with
+                     | Some qm => match tlen qm, tlen mi with
+                                  | Some a, Some b => if a =? b then Ok out else Raise EValue
+                                  | _, _ => Raise EType
+                                  end
+                     | None => Ok out
+                     end
+        end
+      else Ok out)).
+Proof. reflexivity. Qed.
+
+(* the sample-name chain, for every recipe table: the first recipe whose guard tag is present names the sample *)
+Lemma sm_apply_skip : forall keep smtag g parts ren rest r, get g r = None ->
+  sm_apply keep smtag ((g, (parts, ren)) :: rest) r = sm_apply keep smtag rest r.
+Proof. intros. cbn [sm_apply]. unfold has. rewrite H. reflexivity. Qed.
+
+Lemma sm_apply_hit : forall keep smtag g parts rest r gv s, get g r = Some gv -> eval_parts parts r = Ok s ->
+  sm_apply keep smtag ((g, (parts, [])) :: rest) r = Ok (dset smtag (TS (fqSafe_g keep s)) r).
+Proof. intros. cbn [sm_apply]. unfold has. rewrite H, H0. reflexivity. Qed.
+
+Lemma eval_parts_tag : forall t r d v, get t d = Some v ->
+  eval_parts ((0, t) :: r) d = match eval_parts r d with Raise e => Raise e | Ok y => Ok (fmt v ++ y) end.
+Proof. intros. cbn [eval_parts]. rewrite Z.eqb_refl, H. reflexivity. Qed.
+
+Lemma eval_parts_lit : forall s r d,
+  eval_parts ((1, s) :: r) d = match eval_parts r d with Raise e => Raise e | Ok y => Ok (s ++ y) end.
+Proof. intros. reflexivity. Qed.
+
+(* the three recipes of the regenerated table *)
+Lemma sm_cell : forall r ly bi, get k_bi r = Some (TS bi) -> get k_LY r = Some (TS ly) ->
+  sm_apply fqsafe_ranges k_SM sm_recipes_expected r = Ok (dset k_SM (TS (fqSafe (ly ++ 95 :: bi))) r).
+Proof.
+  intros r ly bi Hbi HLY. unfold sm_recipes_expected.
+  rewrite (sm_apply_hit _ _ _ _ _ _ (TS bi) (ly ++ 95 :: bi)); [reflexivity|exact Hbi|].
+  rewrite (eval_parts_tag _ _ _ _ HLY), eval_parts_lit, (eval_parts_tag _ _ _ _ Hbi). cbn [eval_parts fmt app].
+  rewrite app_nil_r. reflexivity.
+Qed.
+
+Lemma sm_bulk : forall r ly, get k_bi r = None -> get k_BI r = None -> get k_LY r = Some (TS ly) ->
+  sm_apply fqsafe_ranges k_SM sm_recipes_expected r = Ok (dset k_SM (TS (fqSafe (ly ++ 95 :: s_BULK))) r).
+Proof.
+  intros r ly Hbi HBI HLY. unfold sm_recipes_expected.
+  rewrite sm_apply_skip by exact Hbi. rewrite sm_apply_skip by exact HBI.
+  rewrite (sm_apply_hit _ _ _ _ _ _ (TS ly) (ly ++ 95 :: s_BULK)); [reflexivity|exact HLY|].
+  rewrite (eval_parts_tag _ _ _ _ HLY), eval_parts_lit. cbn [eval_parts fmt app]. rewrite app_nil_r. reflexivity.
+Qed.
 
 Definition all_str (d : rstore) : Prop := forall k v, In (k, v) d -> exists s, v = TS s.
 Definition gets (k : str) (d : rstore) : str := match get k d with Some (TS s) => s | _ => [] end.
@@ -62,7 +143,7 @@ Proof.
 Qed.
 
 (* ------------------------------------------------------------------ the molecule identifier loop *)
-Definition a0 : molacc := {| m_id := []; m_q := []; m_qt_missing := false; m_nonmux := false; m_terr := false |}.
+Definition a0 : molacc := mol0.
 
 Lemma get_all_str : forall d k v, all_str d -> get k d = Some v -> exists s, v = TS s.
 Proof. intros d k v H G. apply get_Some_In in G. exact (H k v G). Qed.
@@ -70,10 +151,10 @@ Proof. intros d k v H G. apply get_Some_In in G. exact (H k v G). Qed.
 (* a cell read as every strategy writes it: barcode present, no QT, corrected sequencing index present *)
 Lemma mol_loop_cell : forall d bc ia, all_str d ->
   get k_BC d = Some (TS bc) -> get k_QT d = None -> get k_aA d = Some (TS ia) ->
-  let a := mol_loop mol_tags d a0 in
+  let a := mol_loop 111 k_QT mol_tags d a0 in
   m_terr a = false /\ m_nonmux a = false /\ m_qt_missing a = true /\ m_id a = bc ++ gets k_RX d ++ ia.
 Proof.
-  intros d bc ia HS HBC HQT HaA. rewrite gen_mol_tags. unfold gets, a0. cbn [mol_loop]. unfold has.
+  intros d bc ia HS HBC HQT HaA. rewrite gen_mol_tags. unfold gets, a0, mol0. cbn [mol_loop]. unfold has.
   rewrite HBC, HQT, HaA. cbn [m_id m_q m_qt_missing m_nonmux m_terr orb andb negb].
   assert (Q : str_eqb k_QT k_QT = true) by reflexivity. rewrite Q.
   destruct (get k_RX d) as [[rx|z]|] eqn:ERX.
@@ -104,12 +185,24 @@ Proof.
   set (r0 := match get k_aa d with Some (TS raw) => dset k_ah (TI (hamming raw ia)) d | _ => d end).
   set (r1 := dset k_MI (TS (fqSafe (bc ++ gets k_RX d ++ ia))) r0).
   set (r2 := dset k_SM (TS (fqSafe (ly ++ 95 :: bi))) r1).
+  assert (NE1 : k_MI <> k_SM) by discriminate. assert (NE2 : k_ah <> k_SM) by discriminate.
+  assert (NE3 : k_ah <> k_MI) by discriminate.
+  assert (Hbi1 : get k_bi r1 = Some (TS bi)).
+  { unfold r1. rewrite get_dset_other by discriminate. unfold r0. destruct (get k_aa d) as [[raw|z]|]; try exact Hbi.
+    rewrite get_dset_other by discriminate. exact Hbi. }
+  assert (HLY1 : get k_LY r1 = Some (TS ly)).
+  { unfold r1. rewrite get_dset_other by discriminate. unfold r0. destruct (get k_aa d) as [[raw|z]|]; try exact HLY.
+    rewrite get_dset_other by discriminate. exact HLY. }
+  assert (HM : match get k_aA d, get k_aa d with
+               | Some (TS ca), Some (TS ia0) => Ok (dset k_ah (TI (hamming ia0 ca)) d)
+               | Some _, Some _ => Raise EType
+               | _, _ => Ok d
+               end = Ok r0).
+  { rewrite HaA. unfold r0. destruct (get k_aa d) as [[raw|z]|] eqn:Eaa; try reflexivity.
+    destruct (get_all_str d k_aa (TI z) HS Eaa) as [s Hs]. discriminate. }
   assert (HD : derive d = Ok (r2, true)).
-  { unfold derive. fold a0. rewrite M1, M2, M3, M4, HaA, Hbi, HLY. cbn [bind].
-    destruct (get k_aa d) as [[raw|z]|] eqn:Eaa.
-    - cbn [bind]. reflexivity.
-    - destruct (get_all_str d k_aa (TI z) HS Eaa) as [s Hs]. discriminate.
-    - cbn [bind]. reflexivity. }
+  { rewrite derive_unfold. cbv zeta. fold a0. rewrite M1. rewrite M2. rewrite M3. rewrite M4. rewrite HM.
+    cbn [bind]. fold r1. rewrite (sm_cell r1 ly bi Hbi1 HLY1). reflexivity. }
   assert (HW2 : forall k v, In (k, v) r2 -> writable k v).
   { intros k v HI. unfold r2 in HI. apply In_dset in HI. destruct HI as [[A B]|HI].
     - subst. split; [rewrite PSM; discriminate|reflexivity].
@@ -120,9 +213,7 @@ Proof.
         subst. split; [rewrite Pah; discriminate|reflexivity]. }
   exists (map (fun kv => (fst kv, wv (fst kv) (snd kv))) r2).
   split.
-  { unfold tag_read. rewrite HD. cbn [bind]. rewrite (mapM_write r2 HW2). cbn [bind negb andb]. reflexivity. }
-  assert (NE1 : k_MI <> k_SM) by discriminate. assert (NE2 : k_ah <> k_SM) by discriminate.
-  assert (NE3 : k_ah <> k_MI) by discriminate.
+  { rewrite tag_read_unfold, HD. cbn [bind]. rewrite (mapM_write r2 HW2). cbn [bind negb andb]. reflexivity. }
   split; [|split; [|split]].
   - rewrite get_map_wv. unfold r2. rewrite get_dset_same. unfold wv. rewrite PSM. reflexivity.
   - rewrite get_map_wv. unfold r2. rewrite get_dset_other by exact NE1. unfold r1. rewrite get_dset_same.
@@ -146,8 +237,9 @@ Proof.
   intros d ly HS HW HaA HBC HRX HQM HLY Hbi HBI. destruct gen_derived_not_phred as [PSM [PMI [Pah [PBK _]]]].
   set (r2 := dset k_SM (TS (fqSafe (ly ++ 95 :: s_BULK))) (dset k_BK (TI 1) d)).
   assert (HD : derive d = Ok (r2, false)).
-  { unfold derive. rewrite gen_mol_tags. cbn [mol_loop]. unfold has. rewrite HBC, HRX, HaA.
-    cbn [m_id m_q m_qt_missing m_nonmux m_terr orb andb negb bind]. rewrite Hbi, HBI, HLY. reflexivity. }
+  { rewrite derive_unfold. cbv zeta. rewrite gen_mol_tags. unfold mol0. cbn [mol_loop]. unfold has. rewrite HBC, HRX, HaA.
+    cbn [m_id m_q m_qt_missing m_nonmux m_terr orb andb negb bind].
+    rewrite (sm_bulk (dset k_BK (TI 1) d) ly); [reflexivity| | |]; rewrite get_dset_other by discriminate; assumption. }
   assert (HW2 : forall k v, In (k, v) r2 -> writable k v).
   { intros k v HI. unfold r2 in HI. apply In_dset in HI. destruct HI as [[A B]|HI].
     - subst. split; [rewrite PSM; discriminate|reflexivity].
@@ -157,7 +249,7 @@ Proof.
   assert (NQM : get k_QM (map (fun kv => (fst kv, wv (fst kv) (snd kv))) r2) = None).
   { rewrite get_map_wv. unfold r2. rewrite !get_dset_other by discriminate. rewrite HQM. reflexivity. }
   split; [|split; [|split]].
-  - unfold tag_read. rewrite HD. cbn [bind]. rewrite (mapM_write r2 HW2). cbn [bind negb andb].
+  - rewrite tag_read_unfold, HD. cbn [bind]. rewrite (mapM_write r2 HW2). cbn [bind negb andb].
     unfold has. rewrite NQM. reflexivity.
   - rewrite get_map_wv. unfold r2. rewrite get_dset_other by discriminate. rewrite get_dset_same. unfold wv. rewrite PBK. reflexivity.
   - rewrite get_map_wv. unfold r2. rewrite get_dset_same. unfold wv. rewrite PSM. reflexivity.
